@@ -41,6 +41,19 @@ Theorem C07_keeps_subject : forall (H : string -> string) (cf : cfg) pl r s cr r
 Proof. exact keeps_subject. Qed.
 Print Assumptions C07_keeps_subject.
 
+(* the refreshed tokens keep the audience of the grant (r_aud; the storage's policy f_aud cf: the
+   client alone, a resource server only, several entries ...): a JWT access token carries it
+   EXACTLY - the client stands in only for a grant without audience -, the ID token carries it
+   with the client added when missing, and the new refresh token stands for the same audience *)
+Theorem C07_keeps_audience : forall (H : string -> string) (cf : cfg) pl r s cr rt scopes s' t,
+  step H cf r s (TokenRefresh pl cr rt scopes) = (s', OTokens t) ->
+  exists n r0, rt = Some n /\ find_rt s n = Some r0
+    /\ t_aud t = aud_with (r_client r0) (r_aud r0)
+    /\ (t_jwt t <> None -> t_at_aud t = match r_aud r0 with [] => [r_client r0] | _ => r_aud r0 end)
+    /\ (exists new, find_rt s' (match t_rt t with Some m => m | None => 0 end) = Some new /\ r_aud new = r_aud r0).
+Proof. exact keeps_audience. Qed.
+Print Assumptions C07_keeps_audience.
+
 (* CONCURRENCY.  P_overlap marks a request that was sent before the operation preceding it in the
    history and was in flight (authenticated, about to look its refresh token up) while that
    operation - e.g. another client presenting the same token and scope - ran from start to
